@@ -54,6 +54,13 @@ def _key_and_detail(cx, o, rec):
     if o["kind"] == "expr":
         r = o["s"] if clause.endswith("string") else o["c"] if clause.endswith("convert") else o["a"]
         return {"part": "expr", "clause": clause, "expr": o.get("text", "")}, {"observed": r.get("bv"), "product_of_constituents": o.get("want"), "exc": r.get("exc"), "tlc": rec["detail"]}
+    if o["kind"] == "ord":
+        sym = data["table"][o["t"] - 1]["sym"]
+        j = rec["detail"].get("step", 1) if isinstance(rec["detail"], dict) else 1
+        pre = [data["prefixes"][p - 1]["p"] for p in o["seq"]]
+        return {"part": "order", "clause": clause, "sym": sym, "prefix": pre[j - 1], "after": pre[: j - 1], "alias": bool(o["al"])}, {"steps": o["steps"], "tlc": rec["detail"]}
+    if o["kind"] == "pow":
+        return {"part": "power", "clause": clause, "unit": o.get("text", ""), "exponent": o.get("p", ""), "form": o["form"], "type": o["ty"]}, {"result_unit": o.get("runit"), "base_value": o.get("bv"), "scale_to_carried_exponent": o.get("want"), "exc": o.get("exc"), "tlc": rec["detail"]}
     return {"part": o["kind"], "clause": clause}, rec
 
 
@@ -228,7 +235,25 @@ def run(ck):
 
         return go
 
-    jobs = {"all": gen_all, "expr3": gen_expr3, "exprsim": gen_exprsim,
+    def gen_more():
+        rowmod = ck.q(7, 1)
+        cfg = _cfg(ck, "MC_C02_more", "MC_C02_more_run", {"RowMod": rowmod, "RowSel": ck.seed % rowmod})
+        r = ck.tlc("MC_C02_more", cfg, env={ENV: cx.path}, workers=1, timeout=3000, required_actions=["NextOrdChain", "NextOrdPairs", "NextPow"],
+                   label=f"resolution order in a fresh registry (prefix chains x every prefixable symbol; all ordered prefix pairs x 1 of {rowmod} symbols) and float exponents x call forms")
+        more = r.by_tag("MORE")[0]
+        pnames = [data["names"][n - 1]["name"] for n in more["pool"]]
+        out = []
+        for x in r.by_tag("ORD"):
+            if any(st["key"] == 0 for st in x["steps"]):
+                raise MachineryFailure("order case without a canonical key")
+            out.append({"kind": "ord", "t": x["t"], "seq": x["seq"], "al": x["al"], "sname": data["table"][x["t"] - 1]["sym"],
+                        "steps": [{"p": st["p"], "kexp": st["kexp"], "name": data["names"][st["n"] - 1]["name"] if st["n"] else data["keys"][st["key"] - 1]} for st in x["steps"]]})
+        for x in r.by_tag("POW"):
+            out.append({"kind": "pow", "b": x["b"], "e": x["e"], "form": x["form"], "ty": x["ty"], "p": x["p"], "cls": x["cls"], "dimu": x["dimu"],
+                        "toks": more["bases"][x["b"] - 1], "names": pnames, "coefs": more["coefs"], "exps": more["exps"]})
+        return out
+
+    jobs = {"all": gen_all, "more": gen_more, "expr3": gen_expr3, "exprsim": gen_exprsim,
             "reg": gen_reg("MC_C02_reg_t" if thorough else "MC_C02_reg", "user registries: histories <= 3 calls (define_unit tuple/quantity, add, modify) over 2 registries x unit systems, one witness per state"),
             "regqux": gen_reg("MC_C02_reg_qux", "user registries: symbol qux defined over user symbol foo, then foo modified; histories <= 3")}
     if thorough:
@@ -288,6 +313,9 @@ def run(ck):
     ck.cov["expression_alphabets"] = alphabets[:6]
     counts["expressions"] = len(ecases)
     cases += ecases
+    counts["order_sequences"] = sum(1 for c in done["more"] if c["kind"] == "ord")
+    counts["float_exponent_cases"] = sum(1 for c in done["more"] if c["kind"] == "pow")
+    cases += done["more"]
 
     # ---- user registries
     rcases = []
@@ -318,6 +346,7 @@ def run(ck):
     counts["names_not_accepted_by_Unit"] = len(rejected)
     ck.cov["names_not_accepted_sample"] = rejected[:12]
     nontrivial = nontrivial_reg + sum(1 for c, o in byk["name"] if o["ok"]) + sum(1 for c, o in byk["pfx"] if o["ok"]) + sum(1 for c, o in byk["conv"] if o["ok"] and c["n1"] != c["n2"])
+    nontrivial += sum(1 for c, o in byk["ord"] if all(st["ok"] for st in o["steps"])) + sum(1 for c, o in byk["pow"] if o["ok"])
     eo = byk["expr"]
     counts["expressions_accepted_string"] = sum(1 for c, o in eo if o["s"]["ok"])
     counts["expressions_accepted_arith"] = sum(1 for c, o in eo if o["a"]["ok"])
